@@ -134,6 +134,9 @@ type IterSpec struct {
 	Count     int    `json:"count"`
 	IgnoreDel bool   `json:"ignore_del"`
 	WithSnap  bool   `json:"with_snap"`
+	// NoTS != 0: Iterator.NoTimestamp(NoTS) is called on the iterator before it
+	// is read (21 = KVType, 22 = HashType: strip; any other type byte: no effect)
+	NoTS uint8 `json:"no_timestamp"`
 	// option-combination class and index (for coverage accounting only)
 	OffClass string `json:"off_class"`
 	CntClass string `json:"cnt_class"`
@@ -195,7 +198,7 @@ func rangeOf(all []kv, s IterSpec) []kv {
 // (count < 0: no limit; offset < 0: nothing), as rockredis uses it
 // (ZRANGEBYSCORE/ZRANGEBYLEX LIMIT offset count, list/hash/set scans).
 func expectIter(all []kv, s IterSpec) []kv {
-	r := rangeOf(all, s)
+	r := stripAll(rangeOf(all, s), s.NoTS)
 	if !s.limited() {
 		return r
 	}
@@ -210,6 +213,58 @@ func expectIter(all []kv, s IterSpec) []kv {
 		r = r[:s.Count]
 	}
 	return r
+}
+
+// Timestamp stripping (Iterator.NoTimestamp, engine/iterator.go): the data
+// mapping stores kv and hash-field values with an 8-byte timestamp suffix and
+// asks the iterator to drop it. What every engine implements (mem_iter.go,
+// pebble_iter.go, rock_iter.go, identical code): the mode is a property of the
+// iterator, not of the key under it; with the type byte KVType (21) or HashType
+// (22) RefValue and Value return the stored value without its last 8 bytes when
+// it has at least 8 bytes, and unchanged when it is shorter; any other type
+// byte (or no call) leaves values alone.
+const tsLen = 8
+
+func stripsTS(vt uint8) bool { return vt == 21 || vt == 22 }
+
+func stripTS(v []byte, vt uint8) []byte {
+	if stripsTS(vt) && len(v) >= tsLen {
+		return v[:len(v)-tsLen]
+	}
+	return v
+}
+
+func stripAll(in []kv, vt uint8) []kv {
+	if !stripsTS(vt) {
+		return in
+	}
+	out := make([]kv, len(in))
+	for i, e := range in {
+		out[i] = kv{e.K, stripTS(e.V, vt)}
+	}
+	return out
+}
+
+func lenClass(n int) string {
+	switch {
+	case n < tsLen:
+		return "len<8"
+	case n == tsLen:
+		return "len=8"
+	}
+	return "len>8"
+}
+
+func noTSName(vt uint8) string {
+	switch vt {
+	case 0:
+		return "off"
+	case 21:
+		return "kv"
+	case 22:
+		return "hash"
+	}
+	return "othertype"
 }
 
 func sameKVs(a, b []kv) bool {
